@@ -97,7 +97,8 @@ Next ==
             /\ Mode = "MR" /\ MRLeaves[i].reg = 1 /\ PlainLeaf(i)
             /\ \E t \in 1..HistN, near \in BOOLEAN, two \in BOOLEAN :
                  LET j == HLeafSeq[Sample(i, t, 91, Len(HLeafSeq))]
-                     k == IF near THEN (IF i < Len(HLeafSeq) THEN i + 1 ELSE 1) ELSE HLeafSeq[Sample(i, t, 92, Len(HLeafSeq))]
+                     pos == CHOOSE x \in DOMAIN HLeafSeq : HLeafSeq[x] = i
+                     k == IF near THEN HLeafSeq[(pos % Len(HLeafSeq)) + 1] ELSE HLeafSeq[Sample(i, t, 92, Len(HLeafSeq))]
                      p == SimpPSeq[Sample(i, t, 93, Len(SimpPSeq))]
                      e1 == EditSeq[Sample(i, t, 94, Len(EditSeq))]
                      e2 == EditSeq[Sample(i, t, 95, Len(EditSeq))] IN
@@ -125,7 +126,7 @@ Next ==
 \* the effective exponent of every instruction travels with the case (the harness needs its value to measure deviations)
 ExportProg(prog) == [x \in DOMAIN prog |-> [op |-> prog[x].op, a |-> prog[x].a, b |-> prog[x].b, e |-> prog[x].e, eff |-> Eff(prog[x].e)]]
 \* the model registry itself is exported once: the harness builds the real registries from it
-ASSUME Mode = "MR" => PrintT(ToJson([tag |-> "MR", atoms |-> MRAtoms, leaves |-> [x \in DOMAIN MRLeaves |-> [s |-> MRLeaves[x].s, reg |-> MRLeaves[x].reg]]]))
+ASSUME Mode = "MR" => PrintT(ToJson([tag |-> "MR", atoms |-> MRAtoms, leaves |-> [x \in DOMAIN MRLeaves |-> [s |-> MRLeaves[x].s, reg |-> MRLeaves[x].reg, xs |-> MRLeaves[x].xs, xlg |-> MRLeaves[x].xlg]], table5 |-> [i \in 1..NA |-> Table5[i].lg]]))
 \* export (one line per case); in MR mode with the model-level verdict
 Export ==
   ~c.seed =>
